@@ -58,7 +58,7 @@ Qed.
 Lemma has_prefix_app s p : has_prefix s p = true <-> exists r, s = p ++ r.
 Proof.
   revert s. induction p as [|y p IH]; intros s; cbn [has_prefix].
-  - split; [eauto|reflexivity].
+  - split; [intros _; now exists s|reflexivity].
   - destruct s as [|x s].
     + split; [discriminate|]. intros [r H]. discriminate.
     + rewrite andb_true_iff, N.eqb_eq, IH. split.
@@ -131,14 +131,18 @@ Proof. intros H. unfold Spec.find_last_dot. now apply fld_from_nodot. Qed.
 Lemma fld_app_nodot a c : no_dot c = true -> Spec.find_last_dot (a ++ dot :: c) = Some (length a).
 Proof. intros H. unfold Spec.find_last_dot. rewrite fld_from_app. rewrite fld_from_nodot; [|assumption]. reflexivity. Qed.
 
+Lemma fld_from_some i s j : Spec.find_last_dot_from i s (Some j) <> None.
+Proof.
+  revert i j. induction s as [|c s IH]; intros i j; cbn [Spec.find_last_dot_from]; [discriminate|].
+  destruct (N.eqb c dot); apply IH.
+Qed.
+
 Lemma fld_app_ge a b : exists i, Spec.find_last_dot (a ++ dot :: b) = Some i /\ (length a <= i < length a + 1 + length b)%nat.
 Proof.
   unfold Spec.find_last_dot. rewrite fld_from_app. cbn [plus].
   destruct (Spec.find_last_dot_from (length a + 1) b (Some (length a))) as [r|] eqn:E.
   - exists r. split; [reflexivity|]. apply fld_from_range in E. lia.
-  - exfalso. revert E. generalize (length a + 1)%nat (length a). clear. induction b as [|c b IH]; intros i j; cbn [Spec.find_last_dot_from].
-    + discriminate.
-    + destruct (N.eqb c dot); apply IH.
+  - exfalso. now apply fld_from_some in E.
 Qed.
 
 (* ------------------------------------------------------------------ the first component *)
@@ -205,8 +209,8 @@ Proof.
   induction cs as [|x cs IH]; [contradiction|]. intros _. destruct cs as [|y cs].
   - reflexivity.
   - change ((x :: y :: cs) ++ [c]) with (x :: ((y :: cs) ++ [c])).
-    rewrite join_cons by (destruct cs; discriminate). rewrite IH by discriminate.
-    rewrite join_cons by discriminate. now rewrite <- app_assoc.
+    rewrite join_cons by (cbn; discriminate). rewrite IH by discriminate.
+    rewrite (join_cons x (y :: cs)) by discriminate. now rewrite <- app_assoc.
 Qed.
 
 Lemma join_nil_iff cs : all_simple cs -> (join_dots cs = [] <-> cs = []).
@@ -219,7 +223,7 @@ Qed.
 Lemma join_no_lead cs : all_simple cs -> starts_with_dot (join_dots cs) = false.
 Proof.
   intros H. destruct cs as [|c cs]; [reflexivity|]. inversion H as [|? ? Hc _].
-  apply simple_inv in Hc. destruct Hc as [Hc Hd]. destruct c as [|x c]; [contradiction|].
+  apply simple_inv in Hc. destruct Hc as [Hc Hd]. destruct c as [|x0 c]; [contradiction|].
   cbn [no_dot] in Hd. apply andb_true_iff in Hd. destruct Hd as [Hd _]. apply negb_true_iff in Hd.
   destruct cs; cbn [join_dots app starts_with_dot]; assumption.
 Qed.
@@ -263,7 +267,7 @@ Fixpoint npd_rev (r : list name) : list (list name) :=
 Definition npd (cs : list name) : list (list name) := npd_rev (rev cs).
 
 Lemma npd_snoc cs c : npd (cs ++ [c]) = (cs ++ [c]) :: npd cs.
-Proof. unfold npd. rewrite rev_unit. cbn [npd_rev]. f_equal. change (c :: rev cs) with (rev (rev (c :: rev cs))). rewrite rev_involutive. cbn [rev]. now rewrite rev_involutive. Qed.
+Proof. unfold npd. rewrite rev_unit. cbn [npd_rev rev]. now rewrite rev_involutive. Qed.
 
 Lemma npd_nil : npd [] = [].
 Proof. reflexivity. Qed.
@@ -305,7 +309,8 @@ Proof.
       replace (S (count_dots r)) with (length (a0 :: mid')) by (cbn; lia).
       rewrite upd_app. cbn [app].
       replace (S (length done)) with (length (done ++ [c])) by (rewrite app_length; cbn; lia).
-      rewrite (IH (done ++ [c]) mid' (done :: tail) a0); [|rewrite Hp, <- app_assoc; reflexivity|assumption].
+      etransitivity; [apply (IH (done ++ [c]) mid' (done :: tail) a0);
+                      [rewrite Hp, <- app_assoc; reflexivity|assumption]|].
       cbn [rev]. now rewrite <- app_assoc.
     + replace (S (length done)) with (length (done ++ [c])) by (rewrite app_length; cbn; lia).
       apply IH; [rewrite Hp, <- app_assoc; reflexivity|assumption].
@@ -327,8 +332,9 @@ Proof.
   - rewrite dps_nodot by assumption. reflexivity.
   - replace (S n + 2)%nat with (S (S (S n))) by lia.
     change (repeat [] (S (S (S n)))) with (@nil N :: repeat [] (S (S n))). rewrite (repeat_snoc (@nil N) (S n)).
-    rewrite <- En. change O with (length (@nil N)).
-    rewrite (fill_spec pkg pkg [] (repeat [] (count_dots pkg)) [[]] []); [reflexivity|reflexivity|apply repeat_length].
+    rewrite <- En.
+    pose proof (fill_spec pkg pkg [] (repeat [] (count_dots pkg)) [[]] [] eq_refl (repeat_length _ _)) as F.
+    cbn [length] in F. etransitivity; [apply f_equal3; [exact F|reflexivity|reflexivity]|]. reflexivity.
 Qed.
 
 Lemma dps_app done a b : dps done (a ++ b) = dps done a ++ dps (done ++ a) b.
